@@ -46,11 +46,13 @@ Definition ood_int (kind width : Z) (v : pyval) : bool :=
   negb (is_cinst kind width v) &&
   (negb (is_intlike v) || (int_of v <? c_lo kind width) || (c_hi kind width <? int_of v)).
 
-(* floats: a finite float, or an int, whose nearest representable value is +-infinity; any non-number *)
+(* floats: an infinity, or a finite float / an int whose nearest representable value is +-infinity (the value read
+   back must be finite); any non-number *)
 Definition ood_float (ct : Z * Z) (v : pyval) : bool :=
   negb (is_cinst (fst ct) (snd ct) v) &&
   match v with
-  | PFloat b => negb (f64_is_nan b) && negb (f64_is_inf b) && (snd ct =? 4) && xabs_ge (xnum_of_f64 b) T32z
+  | PFloat b =>      (* +-infinity itself, or (c_float) a finite value of magnitude >= FLT_MAX + ulp/2 *)
+      negb (f64_is_nan b) && (if snd ct =? 4 then xabs_ge (xnum_of_f64 b) T32z else f64_is_inf b)
   | PInt _ | PBool _ =>
       if snd ct =? 4 then T32z <=? Z.abs (int_of v) else int_overflow_threshold <=? Z.abs (int_of v)
   | PNumLike _ => false
